@@ -109,6 +109,18 @@ def check_log(rep, kind, mc, nr, A, B, tag):
     if tuple(int(x) for x in a.n_added_records) != (18, 5):
         rep.violation({"kind": "log-n", "kind_": kind, "mc": mc, "nr": nr},
                       f"{kind}({mc},{nr}): bookkeeping after merge is {a.n_added_records} not (18,5)")
+    # same tables, but the argument's element counter is 0 (a worker that only counted
+    # records, or a table written directly): cells and bookkeeping must still be summed
+    a2 = SK.make(kind, w, d, mc, nr)
+    a2.cms[...] = A
+    a2.n_added_records[:] = (11, 3)
+    b.n_added_records[:] = (0, 2)
+    a2.merge(b)
+    if not np.array_equal(a2.cms, a.cms) or tuple(int(x) for x in a2.n_added_records) != (11, 5):
+        rep.violation({"kind": "log-n0", "kind_": kind, "mc": mc, "nr": nr},
+                      f"{kind}({mc},{nr}): merging a sketch whose n_added() is 0 (n_records 2, "
+                      f"non-empty table) does not add its cells / records: bookkeeping "
+                      f"{a2.n_added_records}, cells equal: {bool(np.array_equal(a2.cms, a.cms))}")
     return R
 
 
@@ -212,6 +224,15 @@ def linear_part(rep):
         if tuple(int(x) for x in a.n_added_records) != (2**40 + 3, 5 + 2**33):
             rep.violation({"kind": "linear-n"},
                           f"linear merge bookkeeping {a.n_added_records} is not the sum")
+        a2 = SK.make("linear", w, d)
+        a2.cms[...] = X
+        a2.n_added_records[:] = (9, 1)
+        b.n_added_records[:] = (0, 4)
+        a2.merge(b)
+        if not np.array_equal(a2.cms, exp) or tuple(int(x) for x in a2.n_added_records) != (9, 5):
+            rep.violation({"kind": "linear-n0"},
+                          f"linear: merging a sketch whose n_added() is 0 (n_records 4, non-empty "
+                          f"table) does not add its cells / records: {a2.n_added_records}")
         for k, x, y in zip(keys, ea, eb):
             if int(a.query(k)) < min(x + y, U32):
                 rep.violation({"kind": "linear-super"},
@@ -349,6 +370,9 @@ def replay(case):
     if k.startswith("linear"):
         linear_part(r)
     else:
+        check_log(r, case["kind_"], case["mc"], case["nr"], np.array([[1, 2]]), np.array([[3, 4]]), "replay")
+    if k == "log-n0":
+        r.violations = []
         check_log(r, case["kind_"], case["mc"], case["nr"], np.array([[1, 2]]), np.array([[3, 4]]), "replay")
     hits = [m for c, m in r.violations if c["kind"] == k]
     return bool(hits), {"problems": hits[:3]}
